@@ -44,7 +44,7 @@ def legacyDiscardNestedListResult : Bool := true
 
 /-- R14a: in the list branch the zero Value (a null) reaches `val.Type()` → reflect panic.
     Repaired behaviour: `false` (null handled before the list branch: nullable ⇒ returned as is). -/
-def legacyNullIntoListPanics : Bool := true
+def legacyNullIntoListPanics : Bool := false
 
 /-- what the element of the result slice becomes after its recursive call returned `(ret, upd)` -/
 def storeElem (ret upd : GoVal) : GoVal :=
